@@ -32,8 +32,10 @@ ASSUMPTIONS = [
     'set (the loaders abort); the partially appended parameter lists left behind are reported as a count only',
     'group find_idx theorems with allow_all are _partial: they assume at most one model of the group matches '
     '(Lean counterexample group_find_all_omits_other_models)',
-    'ExtVar on a group with allow_none maps a None idx to address 0 by design (optional reference); it is modelled '
-    '(extAddr) and counted, not treated as a violation of the clause about REQUIRED references',
+    'ExtVar on a group with allow_none maps a None idx to address 0 by design (optional reference, e.g. IEEEG1.syn2=None '
+    'gives tm2.a=0, the equation is masked by zsyn2); it is modelled (extAddr) and characterised by theorems '
+    '(ext_addr_resolved_or_rejected, none_idx_gets_address_zero) and was probed by hand, it is not part of the random '
+    'correspondence and is not treated as a violation of the clause about REQUIRED references',
 ]
 CORPUS = os.path.join(C.ROOT, 'corpus', 'c19')
 
@@ -366,6 +368,8 @@ def run_case(sc):
         obs['setup'] = 'ok' if ok else 'false'
     except Exception as e:
         obs['setup'] = 'raise:' + _exc(e)
+    obs['extparam_idx'] = {m: sorted({p.indexer.name for p in ss.models[m].params_ext.values() if p.indexer is not None})
+                           for m in ('GENCLS', 'GENROU', 'BusFreq', 'BusROCOF', 'FLoad', 'ACEc', 'PV', 'Slack', 'PQ')}
     obs['finder_v'] = [canon(x) for x in (user.busfreq.v or [])]
     obs['user_link'] = [canon(x) for x in list(user.bus.v)]
     G = ss.FreqMeasurement
@@ -430,15 +434,18 @@ def pristine():
         andes.config_logger(stream_level=50)
         # warm-up: a full set-up in this process so that every lazy import (pandas, scipy, ...) is done
         # before forking (otherwise each fork pays for them again)
-        w = andes.System(default_config=True, no_output=True)
-        w.add('Bus', {'idx': 1})
-        w.add('PV', {'bus': 1})
-        w.add('PQ', {'bus': 1, 'idx': 'p'})
-        w.add('GENROU', {'bus': 1, 'gen': 'PV_1'})
-        w.add('FLoad', {'pq': 'p'})
-        w.add('ACEc', {'bus': 1})
-        w.setup()
-        w.set_address(w.exist.tds)
+        try:
+            w = andes.System(default_config=True, no_output=True)
+            w.add('Bus', {'idx': 1})
+            w.add('PV', {'bus': 1})
+            w.add('PQ', {'bus': 1, 'idx': 'p'})
+            w.add('GENROU', {'bus': 1, 'gen': 'PV_1'})
+            w.add('FLoad', {'pq': 'p'})
+            w.add('ACEc', {'bus': 1})
+            w.setup()
+            w.set_address(w.exist.tds)
+        except Exception:
+            pass        # a broken tree must show up in the cases, not kill the harness
         _PRISTINE[0] = andes.System(default_config=True, no_output=True)
     return _PRISTINE[0]
 
@@ -690,6 +697,13 @@ def oracle(sc, obs):
             bad.append(('dangling-accepted', 'set-up succeeded with dangling mandatory references %r' % dangling[:4]))
         elif 'tds_addr_err' not in obs:
             bad.append(('dangling-accepted-tds', 'set-up and TDS address assignment succeeded with dangling %r' % dangling[:4]))
+    if obs['setup'] == 'ok':
+        for d in dangling:
+            m, f = d.split('=')[0].split('.')
+            if f in obs.get('extparam_idx', {}).get(m, []):
+                bad.append(('dangling-accepted-by-setup', 'setup() returned True although the external parameters of %s '
+                            'could not be linked through the dangling %s' % (m, d)))
+                break
     if not dangling and obs['setup'] != 'ok':
         bad.append(('valid-data-rejected', 'set-up %s although every mandatory reference exists' % obs['setup']))
     if obs['setup'] == 'ok':
@@ -902,8 +916,9 @@ def check_scenarios(ctx, scs, stream_prefix=''):
         ctx.case(json.dumps(sc, sort_keys=True) if nontrivial(sc) else None,
                  {'scenario': {kk: sc[kk] for kk in ('buses', 'gens', 'syns', 'fm', 'users')},
                   'assigned': obs['assigned'], 'setup': obs['setup']})
+        verdicts = oracle(sc, obs)          # (also records obs['dangling'], used by compare)
         compare(ctx, sc, obs, per[k])
-        for key, what in oracle(sc, obs):
+        for key, what in verdicts:
             ctx.oracle_fail(key, what, sc)
         ctx.count('setup:' + obs['setup'].split(':')[0])
         ctx.count('dangling_scenarios', 1 if obs.get('dangling') else 0)
